@@ -81,6 +81,32 @@ class AutoSerialize:
         return mod
 
     @staticmethod
+    def _load_stateful_group(subgrp: zarr.Group) -> tuple[bool, Any]:
+        """
+        Restore an optimizer / scheduler / random-generator group found inside a container.
+
+        Returns (handled, value) and mirrors what _recursive_load does for attributes.
+        """
+        for flag, key in (("_torch_optimizer", "optimizer"), ("_torch_scheduler", "scheduler")):
+            if subgrp.attrs.get(flag):
+                data = AutoSerialize._read_array_np(subgrp, key).tobytes()
+                return True, torch.load(io.BytesIO(data), map_location="cpu", weights_only=False)
+        if subgrp.attrs.get("_numpy_rng"):
+            import numpy.random as npr
+
+            bit_generators = {
+                "PCG64": npr.PCG64,
+                "MT19937": npr.MT19937,
+                "Philox": npr.Philox,
+                "SFC64": npr.SFC64,
+            }
+            bit_generator_type = cast(str, subgrp.attrs.get("_bit_generator_type", "PCG64"))
+            return True, npr.Generator(bit_generators.get(bit_generator_type, npr.PCG64)())
+        if subgrp.attrs.get("_torch_rng_skipped"):
+            return True, torch.Generator()
+        return False, None
+
+    @staticmethod
     def _array_to_np(arr: zarr.Array) -> np.ndarray:
         # Handle empty arrays (any dimension of size 0) and 0-dimensional arrays
         if arr.ndim == 0 or any(s == 0 for s in arr.shape):
@@ -984,6 +1010,8 @@ class AutoSerialize:
                             else:
                                 # Skip unknown logger types in containers
                                 continue
+                        elif (st := AutoSerialize._load_stateful_group(subgroup))[0]:
+                            items.append(st[1])
                         else:
                             raise ValueError(
                                 f"Unknown group structure at key '{key}' in {group.path}"
@@ -1103,6 +1131,8 @@ class AutoSerialize:
                         else:
                             # Skip unknown logger types in containers
                             continue
+                    elif (st := AutoSerialize._load_stateful_group(subgroup))[0]:
+                        items.append(st[1])
                     else:
                         raise ValueError(f"Unknown group structure at key '{key}' in {group.path}")
                 else:
@@ -1194,6 +1224,8 @@ class AutoSerialize:
                     else:
                         # Skip unknown logger types in containers
                         continue
+                elif (st := AutoSerialize._load_stateful_group(subgroup))[0]:
+                    result[key] = st[1]
                 else:
                     raise ValueError(f"Unknown group structure at key '{key}' in {group.path}")
 
